@@ -1,3 +1,3 @@
 INIT Init
-NEXT Next
-INVARIANT TableClosed NoForbidden
+NEXT NextAll
+INVARIANT TableClosed NoForbidden StateTableOk
